@@ -165,6 +165,12 @@ func writeVal(sb *strings.Builder, v any) {
 	}
 }
 
+// canonSink receives the internal-representation observations of scHex / feHex (set for the drivers that want them).
+var (
+	canonSink *ctx
+	canonSeen int
+)
+
 func fatal(err any) {
 	fmt.Fprintln(os.Stderr, "harness:", err)
 	os.Exit(2)
@@ -198,6 +204,9 @@ func main() {
 	fs.BoolVar(&c.verbose, "v", false, "verbose")
 	_ = fs.Parse(os.Args[2:])
 	c.open()
+	if d.name == "scalar" || d.name == "field" {
+		canonSink = c
+	}
 	func() {
 		// A library call that the driver relies on (and that must succeed on valid inputs) failed or panicked: this is an
 		// observation about the code under test, not a harness error.  It is logged as an event that every trace
